@@ -592,7 +592,7 @@ struct Runner {
             }
             if (best < 0 || d2 < best) best = d2;
           }
-        for (double L : {0.75, 10.0}) {
+        for (double L : {0.75, 10.0, std::numeric_limits<double>::infinity()}) {
           const double want = std::min(L, std::sqrt((double)best));
           const Manifold &A = *h[(*ok[i])["h"].get<int>()].m, &B = *h[(*ok[j])["h"].get<int>()].m;
           const double g1 = A.MinGap(B, L), g2 = B.MinGap(A, L);
